@@ -241,6 +241,12 @@ class PinWorld:
                    self.sim.now - o.since <= tinfo.entrance_count_delay + 0.1 for o in self.balls):
                 ball.ambiguous = True
                 self.ctx.probe("arrival_ambiguity")
+        for e in reversed(self.eject_log):
+            if e["ball"] == ball.id and e["dev"] == info.name:
+                if e.get("replunge"):
+                    ball.ambiguous = True
+                    self.ctx.probe("replunge_during_unconfirmed_eject")
+                break
         if sw is not None:
             self._switch(sw, 0)
         elif info.entrance_switch is not None and info.entrance_full_timeout:
@@ -455,6 +461,16 @@ class PinWorld:
         ball = self._exit_ball(info)
         if ball is None:
             return False
-        self.eject_log.append({"t": self.sim.now, "dev": info.name, "outcome": "ok", "ball": ball.id, "manual": True})
-        self._later(0.02, self._ball_leaves, ball, info, "ok")
+        outcome = "ok"
+        p_fail = self.knobs.get("p_eject_fail", 0.0) if self.faults_enabled else 0.0
+        if self.knobs.get("weak_plunges") and p_fail and self.rt.flag("weak_plunge", p_fail):
+            outcome = "fallback"        # a weak plunge: the ball rolls back into the lane
+            self.ctx.fault("eject_fallback")
+        # a second plunge while the first one is still unconfirmed: the controller sees one eject; whatever this ball does
+        # later (e.g. dropping back after the first eject was confirmed by its timeout) it cannot attribute
+        replunge = any(e["dev"] == info.name and e.get("manual") and self.sim.now - e["t"] <= info.eject_timeout + 0.2
+                       for e in self.eject_log)
+        self.eject_log.append({"t": self.sim.now, "dev": info.name, "outcome": outcome, "ball": ball.id, "manual": True,
+                               "replunge": replunge})
+        self._later(0.02, self._ball_leaves, ball, info, outcome)
         return True
